@@ -5,7 +5,7 @@
   seed.py run <ID> <m> [ids...]  apply the patch to /repo, run ./check for the property (and any further ids), undo, record result
 """
 import json, os, re, shutil, subprocess, sys, time
-ENV = dict(os.environ, GOFLAGS='-mod=mod', GOPROXY='off', GOSUMDB='off', GOTOOLCHAIN='local')
+ENV = dict(os.environ, GOFLAGS='-mod=mod', GOPROXY='off', GOSUMDB='off', GOTOOLCHAIN='local', DBUS_SESSION_BUS_ADDRESS='unix:path=/nonexistent')
 ROOT = '/verif/seeded'
 
 def sh(cmd, cwd=None, timeout=3600):
